@@ -90,6 +90,12 @@ func c08Run(t *testing.T, wl any, sc SchedCfg) *Result {
 		for ci, n := range w.Creators {
 			ci, n := ci, n
 			e.Task(fmt.Sprintf("creator%d", ci), func() {
+				var old []interface{ Unblock() }
+				defer func() {
+					for _, o := range old {
+						o.Unblock()
+					}
+				}()
 				for k := 0; k < n; k++ {
 					id := fmt.Sprintf("c%d.%d", ci, k)
 					b := h.R.BlockPluginSync()
@@ -114,8 +120,14 @@ func c08Run(t *testing.T, wl any, sc SchedCfg) *Result {
 					blocks--
 					h.mu.Unlock()
 					b.Unblock()
-					if k%2 == 1 {
-						b.Unblock() // documented as safe to call more than once
+					// "safe to call multiple times": the extra calls come late, after this and other
+					// goroutines have taken further blocks
+					for _, o := range old {
+						o.Unblock()
+					}
+					old = old[:0]
+					if k%2 == 1 || n == 1 {
+						old = append(old, b)
 					}
 					lastUnblock = e.S.Steps
 				}
